@@ -83,15 +83,15 @@ type c02Req struct {
 }
 
 type c02Prod struct {
-	id        int
-	req       *c02Req
-	ctx       context.Context
-	cancel    context.CancelFunc
-	cancelled bool
-	task      *simkit.Task
-	yield     [3]bool
-	lastSite  string // last cond hook site seen for the outstanding offer ("" = never in cond)
-	passed    bool   // the goroutine has left that hook site (was not parked or has been released)
+	id          int
+	req         *c02Req
+	ctx         context.Context
+	cancel      context.CancelFunc
+	cancelled   bool
+	task        *simkit.Task
+	yield       [3]bool
+	lastSite    string // last cond hook site seen for the outstanding offer ("" = never in cond)
+	passed      bool   // the goroutine has left that hook site (was not parked or has been released)
 	sizeAtOffer int64
 }
 
@@ -108,12 +108,12 @@ type c02Sim struct {
 	handoffs []int // ids in hand-off order since last observe
 	hooks    []string
 
-	prods  []*c02Prod
-	reqs   []*c02Req
-	fifo   []int // admitted, not yet handed over (acceptance order)
-	size   int64 // model: sum of sizes of admitted unfinished
-	shut   *simkit.Task
-	nextID int
+	prods          []*c02Prod
+	reqs           []*c02Req
+	fifo           []int // admitted, not yet handed over (acceptance order)
+	size           int64 // model: sum of sizes of admitted unfinished
+	shut           *simkit.Task
+	nextID         int
 	fifoUnreliable bool
 }
 
